@@ -14,6 +14,7 @@
 
 #include <boost/program_options.hpp>
 #include <iostream>
+#include <fstream>
 #include <sstream>
 #include <sys/stat.h>
 
@@ -138,6 +139,7 @@ struct ProcState {
   std::vector<long> executed;         // job ids in execution order
   std::set<std::string> restart_hosts;
   std::set<std::string> restart_stats;
+  bool asked_to_stop = false;         // an injected SIGTERM was handled: the process may wind down without taking further jobs
   bool solo = false;                  // was the only live process during its whole life
   std::vector<long> claimable_at_start;
   int main_task = -1;
@@ -453,6 +455,38 @@ struct World : simio::Env {
 
 World *Wd = nullptr;
 
+// ---- process-global objects of the code under test, one copy per simulated process -------------------------------
+// bin/static_guard writes "<exe>.statics" at link time: offset, size and name of every writable static object the xtp
+// sources define beyond sim/c10/static_whitelist.txt (none in the code as given).  Each simulated process gets its
+// own copy of these byte ranges: they are swapped whenever the CPU passes from one simulated process to another and
+// reset to the image they had at engine start before every run.
+struct StaticRange { char *addr; size_t size; std::string name; };
+std::vector<StaticRange> g_statics;
+std::string g_static_pristine;                       // concatenated initial contents
+std::vector<std::string> g_static_copies;            // per simulated process (index = sim proc id), empty = pristine
+extern "C" char __executable_start;
+
+void load_static_table(const char *argv0) {
+  char exe[4096];
+  ssize_t n = readlink("/proc/self/exe", exe, sizeof exe - 1);
+  std::string path = n > 0 ? std::string(exe, (size_t)n) : std::string(argv0);
+  std::ifstream f(path + ".statics");
+  long off; size_t size; std::string name;
+  while (f >> off >> size) {
+    std::getline(f, name);
+    g_statics.push_back({&__executable_start + off, size, name});
+  }
+  for (auto &r : g_statics) g_static_pristine.append(r.addr, r.size);
+}
+void statics_store(std::string &buf) {
+  buf.clear();
+  for (auto &r : g_statics) buf.append(r.addr, r.size);
+}
+void statics_load(const std::string &buf) {
+  size_t off = 0;
+  for (auto &r : g_statics) { memcpy(r.addr, buf.data() + off, r.size); off += r.size; }
+}
+
 
 // ---------------------------------------------------------------------------
 // stub job calculator: the only stubbed component
@@ -599,7 +633,8 @@ struct Jobs {
   static const char *property() { return "C10"; }
   static std::string &scratch() { static std::string s; return s; }
 
-  static void setup(int, char **) {
+  static void setup(int, char **argv) {
+    load_static_table(argv[0]);
     const char *base = getenv("VERIF_SCRATCH");
     std::string b = base ? base : "/dev/shm";
     char tmpl[256];
@@ -932,7 +967,13 @@ struct Jobs {
     std::streambuf *old_out = std::cout.rdbuf();
     struct NullBuf : std::streambuf { int overflow(int c) override { return c; } std::streamsize xsputn(const char *, std::streamsize n) override { return n; } } nb;
     std::cout.rdbuf(&nb);
+    if (!g_statics.empty()) { statics_load(g_static_pristine); g_static_copies.assign(NP + 2, std::string()); rep.counters["probe.per_process_statics"] = (long)g_statics.size(); }
     sim::Result res = sim::run(cfg, [&] {
+      if (!g_statics.empty())
+        sim::set_on_proc_switch([](int from, int to) {
+          if ((size_t)from < g_static_copies.size()) statics_store(g_static_copies[(size_t)from]);
+          if ((size_t)to < g_static_copies.size()) statics_load(g_static_copies[(size_t)to].empty() ? g_static_pristine : g_static_copies[(size_t)to]);
+        });
       sim::set_on_decision([&] { if (states.size() < 200000) states.push_back(sim::abstract_state()); });
       // allocation points: only in worker threads of the simulated processes while they hold no thread mutex. In
       // correct code that is the job-operator loop around EvalJob; code that should be inside a critical section but
@@ -983,7 +1024,8 @@ struct Jobs {
             for (auto &k : w.plan->kills) if (k.proc == q && k.at == at && k.sigterm) term = true;
             if (term) w.ps[q].killed = true;   // whatever the handler does, the termination was injected
             if (term && simio::deliver_signal(sp, 15)) {
-              w.ps[q].killed = false;   // a handler ran and returned: the process lives on
+              w.ps[q].killed = false;
+              w.ps[q].asked_to_stop = true;   // a handler ran and returned: the process lives on
               w.counters["fault.sigterm_handled"]++;
               w.note("SIGTERM handled by p" + std::to_string(q));
               return;
@@ -1114,7 +1156,7 @@ struct Jobs {
     for (auto &t : w.T) if (t.status == "AVAILABLE") avail++;
     if (avail > 0) {
       for (size_t p = 0; p < w.ps.size(); p++) {
-        if (!w.ps[p].finished) continue;
+        if (!w.ps[p].finished || w.ps[p].asked_to_stop) continue;  // a process that was asked to terminate may leave jobs behind
         const ProcSpec &sp = plan.procs[p];
         if (sp.maxjobs < 0 || w.ps[p].claims < sp.maxjobs) {
           fail("job-left-behind", std::to_string(avail) + " job(s) are still AVAILABLE although p" + std::to_string(p) + " ran to completion without reaching a maxjobs limit");
@@ -1126,7 +1168,7 @@ struct Jobs {
     for (size_t p = 0; p < w.ps.size(); p++) {
       const ProcState &st = w.ps[p];
       const ProcSpec &sp = plan.procs[p];
-      if (!st.finished || !st.solo) continue;
+      if (!st.finished || !st.solo || st.asked_to_stop) continue;
       std::vector<long> ex = st.executed, want = st.claimable_at_start;
       if (sp.maxjobs >= 0 && (long)want.size() > sp.maxjobs) want.resize((size_t)sp.maxjobs);
       std::sort(ex.begin(), ex.end());
